@@ -434,7 +434,7 @@ def u_lemma_roundtrip(I):
 def standin_groups(tier, seed):
     import itertools, random
     from pgradd.GroupAdd.Group import Group, Descriptor
-    names = ['C', 'H', 'C[d]', 'C[.]', 'CO', 'Co', 'Pt', 'N[A]', 'C2', 'x y', 'O', 'N', 'CN']     # incl. names whose concatenations collide: C+O / CO, C+N / CN
+    names = ['C', 'H', 'C[d]', 'C[.]', 'CO', 'Co', 'Pt', 'N[A]', 'C2', 'x y', 'O', 'N', 'CN', 'none']     # incl. names whose concatenations collide: C+O / CO, C+N / CN
     centres = ['C', 'C[d]', 'Pt', 'CO']
     maxk = 3 if tier == 'quick' else 4
     viol, n, distinct = [], 0, set()
@@ -516,6 +516,28 @@ def standin_groups(tier, seed):
                 if not ok and len(viol) < 14:
                     viol.append({'id': 'count-' + t[:40], 'input': t, 'observed': got, 'expected': [csg, len(flat)],
                                  'script': "from pgradd.GroupAdd.Group import Group\np = Group.parse(None, %r)\nprint(p.csg, len(p.psgs), p.name)  # expected %d peripherals, name %r\n" % (t, len(flat), canon)})
+    # a repeat count of zero means no copy at all; a count must follow a name (a count after a count is a syntax error)
+    from pgradd.Error import GroupSyntaxError
+    for t, want in (('C(C)(H)0', ('C', ['C'])), ('O(C)2(H)0', ('O', ['C', 'C'])), ('C(H)0', ('C', [])), ('C(H)2(C)0(H)1', ('C', ['H', 'H', 'H']))):
+        n += 1
+        try:
+            p_ = Group.parse(None, t)
+            ok_ = p_ == Group(None, want[0], want[1]) and sorted(p_.psgs) == sorted(want[1])
+            got_ = [p_.csg, sorted(p_.psgs)]
+        except Exception as e:    # noqa
+            ok_, got_ = False, 'raised %s' % type(e).__name__
+        if not ok_:
+            viol.append({'id': 'zero-count-' + t, 'input': t, 'observed': got_, 'expected': list(want), 'script': "from pgradd.GroupAdd.Group import Group\nprint(Group.parse(None, %r).name)\n" % t})
+    for t in ('C(H)2(3)', 'C(2)', 'C(H)(2)3'):
+        n += 1
+        try:
+            got_ = 'accepted as %s' % Group.parse(None, t).name
+        except GroupSyntaxError:
+            got_ = None
+        except Exception as e:    # noqa
+            got_ = 'raised %s' % type(e).__name__
+        if got_:
+            viol.append({'id': 'count-without-name-' + t, 'input': t, 'observed': got_, 'expected': 'GroupSyntaxError'})
     # different multisets must give different groups
     seen = {}
     for csg, ms in distinct:
